@@ -474,6 +474,15 @@ func Run(c *core.Ctx) core.FinishOpts {
 	}
 	runner := cli.NewRunner(binDir, c.Scratch)
 	fs := faults()
+	if only := os.Getenv("VERIF_C06_FAULTS"); only != "" { // development aid: restrict the fault list
+		var keep []fault
+		for _, f := range fs {
+			if strings.Contains(","+only+",", ","+f.name+",") {
+				keep = append(keep, f)
+			}
+		}
+		fs = keep
+	}
 	os_ := ops()
 
 	allPos := []pos{{"beyond-preview(>100)", 110}, {"first", 0}, {"middle", 60}, {"beyond-batch(>64)", 70}, {"last", nRows - 1}}
